@@ -327,7 +327,10 @@ def one_run(ctx, run, ops=None, trace=None, entry=None):
         if op[0] == 'call':
             if out[0] == 'exc':
                 counts['call_raised'] += 1
-                return              # out-of-range arguments and the like: not C07's subject
+                # out-of-range arguments and the like are not C07's subject, but the call may have
+                # filled caches before it raised: the reader is no longer certainly cold
+                state['warm'].add((op[1], gen.get(op[1], 0), route_of(op[2])))
+                return
             counts['calls_checked'] += 1
             if not reqs:
                 counts['call_without_io'] += 1
